@@ -26,10 +26,74 @@ def vest(profile, nq, nt):
     return {"kind": "vest", "profile": profile, "n_quick": nq, "n_thorough": nt, "per_shard": 10}
 
 PROPS = {
+    "C05": {
+        "title": "Vesting module account is always exactly backed by its pools",
+        "model": "Vest.v: create_pool, withdraw_all, send_to_vesting_account, create_vesting_account, split/move, step, run",
+        "runs": [vest("pools", 120, 4000), vest("", 60, 2000)],
+        "preds": ["C05."],
+        "rule": VEST_RULE,
+        "level_text": "Coq theorems over the executable vesting-world model: Solvent (module balance = sum over pools of locked-sent-withdrawn, "
+                      "every pool within bounds) is an invariant of every history of vesting messages by any signers with any arguments and "
+                      "arbitrary time steps (induction over the operation list); a rejected message returns the identical world. The model is "
+                      "compared with the real message server after every operation of generated histories, and the three registered invariants "
+                      "are evaluated through the real functions.",
+    },
     "C06": {
+        "title": "Pool time-lock",
         "model": "Vest.v: withdraw_all, withdrawable, step",
         "runs": [vest("pools", 160, 4000)],
         "preds": ["C06."],
         "rule": VEST_RULE,
+        "level_text": "Coq theorems over the executable pool model (all pools, times, operation kinds): nothing withdrawable before lock end, "
+                      "withdraw-all pays exactly the matured remainders, repeated withdrawal pays zero, query = paid, a locked pool's ledger "
+                      "changes only through a send into a brand-new continuous vesting account; the model is compared with the real message "
+                      "server on generated histories on every run.",
+    },
+    "C07": {
+        "title": "Split/move of vesting is exact and preserves the release schedule",
+        "model": "Vest.v: unlock_ov, unlock_all, split_vesting_coins, move_available, move_by_denoms, vesting_amt/locked_amt (SDK vesting math)",
+        "runs": [vest("split", 220, 6000)],
+        "preds": ["C07."],
+        "rule": VEST_RULE + "; for C07 non-trivial additionally needs a successful split/move",
+        "partial": ["C07_schedule_endpoints_partial: the agreement of sender+recipient with the sender alone is proved at the split block and "
+                    "from the end time on; between them it is checked on the implementation at sampled later times (predicate "
+                    "C07.later_time_agreement), the closed-form bound is not proved"],
+        "level_text": "Coq theorems for every original vesting, schedule, block time and requested amount (unbounded integers, any tie-breaking): "
+                      "the new original vesting computed by UnlockUnbondedContinuousVestingAccountCoins leaves exactly the requested amount fewer "
+                      "coins vesting; at account level the sender's locked coins drop by exactly the amount per denomination, spendable is "
+                      "unchanged, the recipient is new with locked = amount, same end, start = max(now,start); move leaves zero locked; every "
+                      "amount up to locked can be split. Later-time agreement is proved at the endpoints and sampled in between (partial).",
+    },
+    "C08": {
+        "title": "New vesting accounts get exactly the documented amount and schedule",
+        "model": "Vest.v: send_to_vesting_account, new_vesting_account, create_vesting_account",
+        "runs": [vest("pools", 140, 4000), vest("", 60, 2000)],
+        "preds": ["C08."],
+        "rule": VEST_RULE,
+        "level_text": "Coq theorems for every amount, free fraction in [0,1], pool, restart flag and time: the code's trunc(amount - round18(amount*free)) "
+                      "is the documented integer part of amount*(1-free); a successful send creates an absent recipient, moves exactly the amount, "
+                      "sets the schedule by the restart flag, grows sent by the amount, and fails above what is locked; direct creation moves "
+                      "exactly the coins and vests them all between start and end. Compared with the real keepers on generated histories.",
+    },
+    "C09": {
+        "title": "Custom messages can never replace or alter an existing account",
+        "model": "Vest.v: step over all vesting messages; Sig.v: create_account (allowed-outcome set)",
+        "runs": [vest("", 120, 4000), vest("split", 60, 2000)],
+        "preds": ["C09."],
+        "rule": VEST_RULE + "; C09 compares the serialized x/auth record of every pre-existing tracked address before and after each message",
+        "level_text": "Coq theorem for every world, every vesting-module message with any signer and payload and every existing address: the account "
+                      "record is unchanged, except that a successful split/move signed by that address reduces its original vesting only; lifted to "
+                      "whole histories. The real x/auth records are compared byte-for-byte before/after every generated message.",
+    },
+    "C17": {
+        "title": "Genesis lineage of vesting accounts and vesting summaries are accurate",
+        "model": "Vest.v: traces in send/split, summary; AccountsProofs.v: Derived",
+        "runs": [vest("", 120, 4000), vest("split", 80, 3000)],
+        "preds": ["C17."],
+        "rule": VEST_RULE + "; the harness keeps an independent lineage oracle and recomputes both summaries from bank/auth state",
+        "level_text": "Coq theorems: for every history (any length, any depth of split chains) an address is recorded genesis-derived iff it is "
+                      "Derived (inductive definition of the property) — both directions; both summary queries equal the sums recomputed from "
+                      "account and bank state, delegated = sum of min(vesting, delegated vesting), pools = ledger total in every solvent world. "
+                      "Trace table and both queries are compared with the model and with an independent oracle on every generated history.",
     },
 }
